@@ -438,5 +438,6 @@ int main(int argc, char** argv)
 	def.run = runCase;
 	def.describe = [](std::size_t i) { return std::string(1, gCases[i].kind) + " " + std::to_string(gCases[i].a) + " " + std::to_string(gCases[i].b); };
 	def.caseTimeoutS = 1500;
+	mc::alloc_cap = std::size_t(4) << 30;   // the explorer's own tables (seen set, parent links, bit matrices) exceed the default 64 MiB environment cap; no library allocation in this check is driven by input sizes
 	return mc::Main(argc, argv, def);
 }
